@@ -405,6 +405,8 @@ enum Unit {
     Bfs { alloc: AllocKind, init_cap: Option<usize>, depth: usize },
     /// straight line of `n` insertions of distinct handles through one insertion path
     Line { path: &'static str, init_cap: Option<usize>, n: usize },
+    /// every history up to a depth on a table of plain values
+    Plain { depth: u32 },
 }
 
 fn units(tier: Tier) -> Vec<Unit> {
@@ -425,7 +427,103 @@ fn units(tier: Tier) -> Vec<Unit> {
             u.push(Unit::Line { path, init_cap: c, n: tier.pick(40, 200) });
         }
     }
+    u.push(Unit::Plain { depth: tier.pick(5, 6) });
     u
+}
+
+/// operation alphabet of the plain-value histories: op / 4 = kind, op % 4 = handle
+const PLAIN_OPS: u64 = 22;
+
+/// one history on a HandleTable<u32> (a value type without drop glue: the table takes other code
+/// paths for it) against a BTreeMap
+fn plain_history(hist: &[u64]) -> Result<(), Diverge> {
+    let hs: Vec<Handle> = seeds().iter().take(4).map(|s| Handle::from_u32(*s)).collect();
+    let mut t: HandleTable<u32> = HandleTable::with_capacity(4, SysAllocator).map_err(|e| dv("plain/with_capacity", format!("{e}")))?;
+    let mut model: BTreeMap<u32, u32> = BTreeMap::new();
+    for (step, op) in hist.iter().enumerate() {
+        let h = hs[(*op % 4) as usize];
+        let val = 10 + step as u32;
+        match *op / 4 {
+            0 => {
+                t.insert(h, val).map_err(|e| dv("plain/insert-error", format!("{e}")))?;
+                model.insert(h.value(), val);
+            }
+            1 => {
+                let got = t.remove(h);
+                let want = model.remove(&h.value());
+                if got != want {
+                    return Err(dv("plain/remove-value", format!("history {hist:?} step {step}: remove returned {got:?}, model {want:?}")));
+                }
+            }
+            2 => {
+                let got = *t.entry(h).or_insert_with(|| val);
+                let want = *model.entry(h.value()).or_insert(val);
+                if got != want {
+                    return Err(dv("plain/entry-value", format!("history {hist:?} step {step}: entry yielded {got}, model {want}")));
+                }
+            }
+            3 => {
+                if let Some(v) = t.get_mut(h) {
+                    *v = val;
+                }
+                if let Some(v) = model.get_mut(&h.value()) {
+                    *v = val;
+                }
+            }
+            4 => match *op % 4 {
+                0 => {
+                    t.clear();
+                    model.clear();
+                }
+                1 => {
+                    t.reserve(9).map_err(|e| dv("plain/reserve-error", format!("{e}")))?;
+                }
+                2 => {
+                    let c = t.clone();
+                    t = c;
+                }
+                _ => {
+                    let c = t.clone();
+                    drop(c);
+                }
+            },
+            _ => {
+                // only two codes left in this kind: clear followed by an insertion, and a no-op
+                if *op % 4 == 0 {
+                    t.clear();
+                    model.clear();
+                    t.insert(h, val).map_err(|e| dv("plain/insert-error", format!("{e}")))?;
+                    model.insert(h.value(), val);
+                }
+            }
+        }
+        if t.len() != model.len() {
+            return Err(dv("plain/len", format!("history {hist:?} step {step}: len() = {}, model {}", t.len(), model.len())));
+        }
+        for h in hs.iter() {
+            if t.get(*h).copied() != model.get(&h.value()).copied() {
+                return Err(dv("plain/get", format!("history {hist:?} step {step}: get({}) = {:?}, model {:?}", h.value(), t.get(*h), model.get(&h.value()))));
+            }
+        }
+        let mut it: Vec<(u32, u32)> = t.iter().map(|(h, v)| (h.value(), *v)).collect();
+        it.sort();
+        let want: Vec<(u32, u32)> = model.iter().map(|(k, v)| (*k, *v)).collect();
+        if it != want {
+            return Err(dv("plain/iter", format!("history {hist:?} step {step}: iter yields {it:?}, model {want:?}")));
+        }
+    }
+    Ok(())
+}
+
+fn plain_decode(code: u64, depth: u32) -> Vec<u64> {
+    let mut c = code;
+    (0..depth)
+        .map(|_| {
+            let o = c % PLAIN_OPS;
+            c /= PLAIN_OPS;
+            o
+        })
+        .collect()
 }
 
 fn cfg(alloc: AllocKind, init_cap: Option<usize>, depth: usize, budget_s: u64) -> BfsCfg<'static> {
@@ -486,7 +584,7 @@ impl Check for C13 {
 
     fn info(&self, tier: Tier) -> CheckInfo {
         CheckInfo {
-            rule: "explicit-state BFS over histories of insert/remove/entry().or_insert_with/get_mut-assign/reserve(0|1|9)/clear/clone-and-continue on the real HandleTable<tracked value> for every requested initial capacity in {0,1,2,3,4,5,6,7,8,16,default} and both allocators; 8 handles chosen through the crate's own Handle::from_u32 so that 4 share the last bucket under masks 3..31 (wrapping chains), 2 share bucket 0; after every step get/contains/Index(handle, u32)/len/is_empty/iter/iter_mut for every handle compared with a BTreeMap model; value drop ledger; plus straight lines of insertions of distinct handles through insert / entry / alternating, all entries re-read after every insertion. Canonical state = capacity, count, every bucket in storage order. Non-trivial = state with a handle displaced from its home bucket".into(),
+            rule: "explicit-state BFS over histories of insert/remove/entry().or_insert_with/get_mut-assign/reserve(0|1|9)/clear/clone-and-continue on the real HandleTable<tracked value> for every requested initial capacity in {0,1,2,3,4,5,6,7,8,16,default} and both allocators; 8 handles chosen through the crate's own Handle::from_u32 so that 4 share the last bucket under masks 3..31 (wrapping chains), 2 share bucket 0; after every step get/contains/Index(handle, u32)/len/is_empty/iter/iter_mut for every handle compared with a BTreeMap model; value drop ledger; plus straight lines of insertions of distinct handles through insert / entry / alternating, all entries re-read after every insertion; plus every history of a 22-operation alphabet (insert / remove / entry / get_mut-assign on 4 colliding handles, clear, reserve, replace-by-clone, clone-and-drop, clear-then-insert) up to depth 5 (thorough 6) on HandleTable<u32> (a value type without drop glue, for which the table takes other code paths) against a BTreeMap. Canonical state = capacity, count, every bucket in storage order. Non-trivial = state with a handle displaced from its home bucket".into(),
             bound: format!("history depth {} (capacities 4,8,16) / {} (others); lines of {} insertions", tier.pick(6, 8), tier.pick(5, 7), tier.pick(40, 200)),
             exhaustive: true,
             assumptions: vec![
@@ -511,6 +609,25 @@ impl Check for C13 {
                 let sys = Sys { seeds: seeds(), alloc, init_cap };
                 hist::bfs(&sys, &cfg(alloc, init_cap, depth, tier.pick(25, 600)), out);
             }
+            Unit::Plain { depth } => {
+                let total = PLAIN_OPS.pow(depth);
+                for code in 0..total {
+                    let h = plain_decode(code, depth);
+                    out.evaluations += 1;
+                    out.traces += 1;
+                    out.transitions += depth as u64;
+                    if code % 4096 == 0 {
+                        cvx_core::engine::trace_case(|| json!({"kind": "plain", "history": h}));
+                    }
+                    if let Err(d) = hist::guarded(|| plain_history(&h), "plain") {
+                        out.violation(Violation::new("C13", d.0, d.1, json!({"kind": "plain", "history": h})));
+                        break;
+                    }
+                }
+                out.nontrivial += 1;
+                out.states += 1;
+                out.outcome("plain-value histories".to_string());
+            }
             Unit::Line { path, init_cap, n } => {
                 out.evaluations += 1;
                 out.traces += 1;
@@ -529,6 +646,13 @@ impl Check for C13 {
 
     fn replay(&self, case: &J) -> Option<Violation> {
         let init_cap = case["init_cap"].as_u64().map(|c| c as usize);
+        if case["kind"].as_str() == Some("plain") {
+            let h: Vec<u64> = serde_json::from_value(case["history"].clone()).ok()?;
+            return match hist::guarded(|| plain_history(&h), "plain") {
+                Ok(()) => None,
+                Err(d) => Some(Violation::new("C13", d.0, d.1, case.clone())),
+            };
+        }
         if case["kind"].as_str() == Some("line") {
             let path: &'static str = match case["path"].as_str()? {
                 "insert" => "insert",
